@@ -1502,4 +1502,14 @@ theorem precompute_fields (nC g : Nat) (ntr : List (Nat × Nat))
   · rw [hS]; exact zero_add_summaryStats_genes g _ hlen j hj
   · rw [hS]; simp [Row.add, Row.zero, summaryStats_n]
 
+theorem precompute_no_wanted (nC g : Nat) (ntr : List (Nat × Nat))
+    (files : List (Nat × List CellRec)) (rows nProc : Nat) (hproc : 1 ≤ nProc)
+    (hw : ∀ f ∈ files, wanted ntr f.2 = false) :
+    precompute nC g ntr files rows nProc = .error .noBuffers := by
+  have hf : files.filter (fun f => wanted ntr f.2) = [] := by
+    rw [List.filter_eq_nil_iff]
+    intro f hf; simp [hw f hf]
+  have h1 : ¬ nProc = 0 := by omega
+  simp [precompute, hf, workSplit, h1, splitLoop, mapMExcept, mergeBuffers]
+
 end CTM.Stats
